@@ -87,6 +87,34 @@
 (*   ParseMemoAliased = TRUE  (parse_multiline_as_lines returns the list   *)
 (*        it returned before, which the caller has meanwhile changed)      *)
 (*        codec -> CodecRepeat                                             *)
+(* WORD SHAPES.  A pattern (and an entry of a line-based list) is an opaque  *)
+(* word; the only thing the format says about it is that white space       *)
+(* separates.  Characters that separate in OTHER list syntaxes (comma,      *)
+(* semicolon, colon, bar ...) are ordinary payload, also at the edges of a  *)
+(* word and as the whole word.  The payload ids of the model carry that     *)
+(* shape (WShape: plain / edge = begins or ends with such a character /     *)
+(* punct = consists of such characters only) so that every emitted case     *)
+(* has words of every shape; the correct design never looks at it.          *)
+(*   CommaSeparates = TRUE (the reader of a space separated list cuts a     *)
+(*        trailing separator look-alike off each word and drops what is     *)
+(*        empty then)        doc -> RoundTrip                               *)
+(*                                                                         *)
+(* REJECTED CALLS.  A building history also contains calls that the API     *)
+(* REJECTS (Rejects: a raw value Deb822.validate_input refuses -- a         *)
+(* continuation line that is not indented, an empty line inside, a final    *)
+(* newline --, a list the converter refuses -- empty, an empty word, a word *)
+(* containing a separator --, None for a mandatory field, item assignment   *)
+(* / deletion of a restricted field, deletion of a missing field, add_* of  *)
+(* the wrong paragraph class).  A rejected call raises and leaves header    *)
+(* and paragraphs exactly as they were: ApplyCall(D, e) = D.  Model checking*)
+(* puts such calls (BadCallsOn / BadCallsDoc) into the build histories      *)
+(* (DocReject; rej = the calls, with the history length at which they were  *)
+(* made; further add_* calls follow) and among the edits of the re-parsed   *)
+(* document (BadEdits); traces carry accepted and rejected setter calls of  *)
+(* both phases (TraceCopyrightDoc: calls / edits, `raised`).                *)
+(*   RejectDrops = TRUE (a setter removes the old value before the new one  *)
+(*        is validated)      doc -> RoundTrip (the field is gone: strict    *)
+(*        Load fails / the comment is lost)                                 *)
 (* Not modelled: the characters inside a payload (sampled by the harness), *)
 (* trailing white space, comments, PGP armor (spec/Deb822Reader.tla).      *)
 (***************************************************************************)
@@ -102,15 +130,21 @@ CONSTANTS Mode,            \* "codec" | "doc" | "trace"
           BigTextMax, BigTextAlpha,   \* doc: license text of the focus paragraph
           Emit,            \* TRUE: print CASE lines
           NoDotEscape, DecoderStrips, DotAnyIndent,  \* negative controls
-          StaleDump, LicMemoBySynopsis, ParseMemoAliased   \* negative controls: state kept between calls
+          StaleDump, LicMemoBySynopsis, ParseMemoAliased,  \* negative controls: state kept between calls
+          CommaSeparates,  \* negative control: separator look-alikes at the edge of a word are cut off
+          RejectDrops,     \* negative control: a rejected assignment removes the old value
+          RejAt,           \* doc: history lengths at which ONE rejected call is made ({}: none)
+          RejThen,         \* doc: longest history that goes on after a rejected call
+          RejEditAt        \* doc: document lengths whose edits include rejected calls
 
 VARIABLES lst,             \* codec: the list of symbols built so far
           hk,              \* doc: header kind
           paras,           \* doc: the document body (sequence of paragraphs)
           hist,            \* doc: the add_* calls made, in call order (paragraphs)
           big,             \* doc: the focus paragraph has been used
-          ed               \* doc: <<>> or <<[e, pre, memo]>>: the edit made after the first round trip
-vars == <<lst, hk, paras, hist, big, ed>>
+          ed,              \* doc: <<>> or <<[e, pre, memo]>>: the edit made after the first round trip
+          rej              \* doc: the rejected calls of the build history, [at |-> Len(hist) then, e |-> call]
+vars == <<lst, hk, paras, hist, big, ed, rej>>
 
 ----------------------------------------------------------------------------
 \* lines and strings
@@ -176,7 +210,13 @@ Unsplittable(v) == \A i \in 2..Len(v) : ~Blank(v[i])
 
 SpaceTo(pats)  == <<Ln(0, "txt", pats)>>                                  \* ' '.join
 WordsOf(x)     == IF x.b = "txt" THEN x.id ELSE IF x.b = "dot" THEN <<DotWord>> ELSE <<>>
-SpaceFrom(v)   == Flat([i \in 1..Len(v) |-> WordsOf(v[i])])               \* s.split()
+\* shape of a word of the model (payload id Code(k, f, j), f = 1: pattern): by j
+IsPatCode(w)   == w >= 1000 /\ (w \div 100) % 10 = 1
+WShape(w)      == IF ~IsPatCode(w) \/ (w % 100) % 3 = 1 THEN "plain" ELSE IF (w % 100) % 3 = 2 THEN "edge" ELSE "punct"
+\* negative control: a reader that takes separator look-alikes for separators
+LegacyWord(w)  == IF WShape(w) = "edge" THEN <<w + 50>> ELSE IF WShape(w) = "punct" THEN <<>> ELSE <<w>>
+SpaceFrom(v)   == LET ws == Flat([i \in 1..Len(v) |-> WordsOf(v[i])])    \* s.split()
+                  IN IF CommaSeparates THEN Flat([i \in 1..Len(ws) |-> LegacyWord(ws[i])]) ELSE ws
 
 LineTo(es)     == IF Len(es) = 1 THEN <<Ln(0, "txt", es[1])>>             \* _LineBased.to_str (es # <<>>)
                   ELSE <<EmptyLn>> \o [i \in 1..Len(es) |-> Ln(1, "txt", es[i])]
@@ -205,7 +245,9 @@ HdrX(name, uc, lic, fe, fi, extra) == [name |-> name, uc |-> uc, lic |-> lic, fe
 Hdr(name, uc, lic) == HdrX(name, uc, lic, <<>>, <<>>, <<>>)
 
 ParaFields(p) == (IF p.kind = "Files"                                      \* FilesParagraph.create
-                  THEN <<Fld("Files", SpaceTo(p.pats)), Fld("Copyright", p.copy), Fld("License", LicTo(p.lic))>>
+                  THEN <<Fld("Files", SpaceTo(p.pats))>>
+                       \o (IF p.copy # <<>> THEN <<Fld("Copyright", p.copy)>> ELSE <<>>)   \* (<<>>: only with RejectDrops)
+                       \o <<Fld("License", LicTo(p.lic))>>
                   ELSE <<Fld("License", LicTo(p.lic))>>)                   \* LicenseParagraph.create
                  \o p.extra
 HeaderFields(h) == <<Fld("Format", <<FormatLn>>)>>
@@ -298,15 +340,89 @@ PutAfter(ps, i, x) == SubSeq(ps, 1, i) \o <<x>> \o SubSeq(ps, i + 1, Len(ps))
 AddPara(ps, p) == IF p.kind = "Files" THEN PutAfter(ps, LastFiles(ps), p) ELSE Append(ps, p)
 Build(ops) == FoldLeft(AddPara, <<>>, ops)
 
-\* an edit of a document through the setters of a paragraph / one more add_* call ("at" = number of
-\* paragraphs in front of the added one)
-EditRec(kind, i, at, pats, copy, lic, para) ==
-   [kind |-> kind, i |-> i, at |-> at, pats |-> pats, copy |-> copy, lic |-> lic, para |-> para]
-ApplyEdit(ps, e) == CASE e.kind = "files" -> [ps EXCEPT ![e.i].pats = e.pats]
-                      [] e.kind = "copy"  -> [ps EXCEPT ![e.i].copy = e.copy]
-                      [] e.kind = "lic"   -> [ps EXCEPT ![e.i].lic = e.lic]
-                      [] e.kind = "add"   -> PutAfter(ps, e.at, e.para)
-ApplyEdits(ps, es) == FoldLeft(ApplyEdit, ps, es)
+\* A CALL on a document D = [hdr, paras] through the public API: a setter of paragraph i (i = 0: the
+\* header), item access, one more add_* call ("at" = number of paragraphs in front of the added one).
+\*   kind      argument                         call
+\*   files     pats                             p.files = [...]
+\*   copy      copy                             p.copyright = text
+\*   lic       lic                              p.license = License(...)         (header: h.license)
+\*   raw       f, copy                          the property of the raw field f (comment, source, disclaimer ...) = text
+\*   name      copy                             h.upstream_name = text
+\*   entries   f, pats (sequence of entries)    h.upstream_contact / files_excluded / files_included = [...]
+\*   none      f                                the property of field f = None
+\*   item      f, copy                          p[f] = text
+\*   delitem   f                                del p[f]
+\*   wrongadd  f                                add_files_paragraph(<not a FilesParagraph>) (f = "Files"),
+\*                                              add_license_paragraph(<a FilesParagraph>) ("License"), header = <a paragraph> ("Header")
+\*   add       para, at                         add_files_paragraph / add_license_paragraph
+EditRec(kind, i, at, f, pats, copy, lic, para) ==
+   [kind |-> kind, i |-> i, at |-> at, f |-> f, pats |-> pats, copy |-> copy, lic |-> lic, para |-> para]
+
+\* words no list converter accepts: 0 = the empty string, -2 = a string containing a separator (white
+\* space in a pattern, a newline in an entry of a line-based list)
+BadWords    == {0, -2}
+BadList(ws) == ws = <<>> \/ \E j \in 1..Len(ws) : ws[j] \in BadWords
+Mandatory(tk, f) == \/ tk = "Files" /\ f \in {"Files", "Copyright", "License"}      \* allow_none = False
+                    \/ tk = "License" /\ f = "License"
+                    \/ tk = "Header" /\ f = "Format"
+Restricted(tk) == CASE tk = "Files"   -> {"Files", "Copyright", "License", "Comment"}
+                    [] tk = "License" -> {"License", "Comment", "Files"}
+                    [] OTHER          -> {"Format", "Upstream-Name", "Upstream-Contact", "Source", "Disclaimer", "Comment",
+                                          "License", "Copyright", "Files-Excluded", "Files-Included"}
+TKind(D, e)   == IF e.i = 0 THEN "Header" ELSE D.paras[e.i].kind
+ExtraOf(D, e) == IF e.i = 0 THEN D.hdr.extra ELSE D.paras[e.i].extra
+HasKey(fs, k) == \E j \in 1..Len(fs) : fs[j].k = k
+\* the calls the API refuses (they raise; which exception: RejectExc, diagnostic)
+Rejects(D, e) ==
+   CASE e.kind = "files"    -> BadList(e.pats)
+     [] e.kind = "copy"     -> ~Accepts(e.copy)
+     [] e.kind = "raw"      -> ~Accepts(e.copy)
+     [] e.kind = "name"     -> Len(e.copy) > 1                                   \* _single_line
+     [] e.kind = "entries"  -> \E j \in 1..Len(e.pats) : BadList(e.pats[j])      \* (an empty LIST removes the field)
+     [] e.kind = "none"     -> Mandatory(TKind(D, e), e.f)
+     [] e.kind = "item"     -> e.f \in Restricted(TKind(D, e)) \/ ~Accepts(e.copy)
+     [] e.kind = "delitem"  -> e.f \in Restricted(TKind(D, e)) \/ ~HasKey(ExtraOf(D, e), e.f)
+     [] e.kind = "wrongadd" -> TRUE
+     [] OTHER               -> FALSE
+RejectExc(D, e) ==
+   CASE e.kind = "files" /\ e.pats = <<>>                               -> "TypeError"
+     [] e.kind \in {"none", "wrongadd"}                                 -> "TypeError"
+     [] e.kind \in {"item", "delitem"} /\ e.f \in Restricted(TKind(D, e)) -> "RestrictedFieldError"
+     [] e.kind = "delitem"                                              -> "KeyError"
+     [] OTHER                                                           -> "ValueError"
+
+DelKey(fs, k) == SelectSeq(fs, LAMBDA x : x.k # k)
+SetKey(fs, k, v) == IF HasKey(fs, k) THEN [j \in 1..Len(fs) |-> IF fs[j].k = k THEN [k |-> k, v |-> v] ELSE fs[j]]
+                    ELSE Append(fs, [k |-> k, v |-> v])
+AcceptedPara(p, e) ==
+   CASE e.kind = "files"               -> [p EXCEPT !.pats = e.pats]
+     [] e.kind = "copy"                -> [p EXCEPT !.copy = e.copy]
+     [] e.kind = "lic"                 -> [p EXCEPT !.lic = e.lic]
+     [] e.kind \in {"raw", "item"}     -> [p EXCEPT !.extra = SetKey(@, e.f, e.copy)]
+     [] e.kind \in {"none", "delitem"} -> [p EXCEPT !.extra = DelKey(@, e.f)]
+AcceptedHdr(h, e) ==
+   CASE e.kind = "name"                -> [h EXCEPT !.name = <<e.copy>>]
+     [] e.kind = "lic"                 -> [h EXCEPT !.lic = <<e.lic>>]
+     [] e.kind = "entries"             -> (CASE e.f = "Upstream-Contact" -> [h EXCEPT !.uc = e.pats]
+                                             [] e.f = "Files-Excluded"   -> [h EXCEPT !.fe = e.pats]
+                                             [] e.f = "Files-Included"   -> [h EXCEPT !.fi = e.pats])
+     [] e.kind \in {"raw", "item"}     -> [h EXCEPT !.extra = SetKey(@, e.f, e.copy)]
+     [] e.kind \in {"none", "delitem"} -> (CASE e.f = "Upstream-Name" -> [h EXCEPT !.name = <<>>]
+                                             [] e.f = "License"       -> [h EXCEPT !.lic = <<>>]
+                                             [] OTHER                 -> [h EXCEPT !.extra = DelKey(@, e.f)])
+\* negative control RejectDrops: the setter of a raw field has removed the old value when validate_input refuses
+Dropped(D, e) == IF e.kind = "copy" THEN [D EXCEPT !.paras[e.i].copy = <<>>]
+                 ELSE IF e.kind = "raw" /\ e.i > 0 THEN [D EXCEPT !.paras[e.i].extra = DelKey(@, e.f)]
+                 ELSE IF e.kind = "raw" THEN [D EXCEPT !.hdr.extra = DelKey(@, e.f)]
+                 ELSE D
+\* a rejected call leaves the document as it was
+ApplyCall(D, e) == IF Rejects(D, e) THEN (IF RejectDrops THEN Dropped(D, e) ELSE D)
+                   \* ("at" is an OBSERVED position in traces: one that the document cannot have explains nothing)
+                   ELSE IF e.kind = "add" THEN (IF e.at \in 0..Len(D.paras) THEN [D EXCEPT !.paras = PutAfter(@, e.at, e.para)] ELSE D)
+                   ELSE IF e.i = 0 THEN [D EXCEPT !.hdr = AcceptedHdr(@, e)]
+                   ELSE [D EXCEPT !.paras[e.i] = AcceptedPara(@, e)]
+ApplyCalls(D, es) == FoldLeft(ApplyCall, D, es)
+DocOf(h, ps) == [hdr |-> h, paras |-> ps]
 
 ----------------------------------------------------------------------------
 \* the structure spaces
@@ -339,13 +455,37 @@ BigShapes == {FShape(MaxPat, cp, tx) : cp \in BigCopys, tx \in BigTexts}
 
 NoLic == Lic(EmptyLn, <<EmptyLn>>)
 FilesIdx(ps) == {i \in 1..Len(ps) : ps[i].kind = "Files"}
+\* calls the API rejects (payload ids of call 8): on paragraph i of ps, and on the header / the document
+BadTexts == {<<"P", "P">>, <<"P", "E", "I">>, <<"P", "I", "E">>}      \* not indented / empty line inside / final newline
+BadCallsOn(ps, i) ==
+   LET R(kind, f, pats, copy) == EditRec(kind, i, 0, f, pats, copy, NoLic, NoPara)
+       one == <<Ln(0, "txt", <<Code(8, 9, 1)>>)>>
+   IN {R("raw", "Comment", <<>>, MkText(8, 7, <<"P", "P">>)), R("item", "X-Custom", <<>>, MkText(8, 9, <<"P", "E">>)),
+       R("none", "License", <<>>, <<>>), R("item", "License", <<>>, one), R("delitem", "License", <<>>, <<>>),
+       R("delitem", "X-Missing", <<>>, <<>>)}
+      \cup (IF ps[i].kind = "Files"
+            THEN {R("files", "", <<>>, <<>>), R("files", "", <<Code(8, 1, 1), -2>>, <<>>), R("files", "", <<0, Code(8, 1, 2)>>, <<>>),
+                  R("none", "Files", <<>>, <<>>), R("none", "Copyright", <<>>, <<>>), R("item", "Files", <<>>, one)}
+                 \cup {R("copy", "", <<>>, MkText(8, 2, t)) : t \in BadTexts}
+            ELSE {})
+BadCallsDoc ==
+   LET R(kind, f, pats, copy) == EditRec(kind, 0, 0, f, pats, copy, NoLic, NoPara)
+   IN {R("name", "", <<>>, MkText(8, 5, <<"P", "I">>)), R("raw", "Comment", <<>>, MkText(8, 7, <<"P", "P">>)),
+       R("item", "X-Custom", <<>>, MkText(8, 9, <<"P", "E", "I">>)),
+       R("entries", "Upstream-Contact", <<<<Code(8, 6, 1)>>, <<-2>>>>, <<>>), R("entries", "Files-Excluded", <<<<>>>>, <<>>),
+       R("none", "Format", <<>>, <<>>), R("wrongadd", "Files", <<>>, <<>>), R("wrongadd", "License", <<>>, <<>>),
+       R("wrongadd", "Header", <<>>, <<>>)}
+BadEdits(ps) == IF Len(ps) \in RejEditAt
+                THEN BadCallsDoc \cup (IF ps = <<>> THEN {} ELSE BadCallsOn(ps, Len(ps)))
+                ELSE {}
 Edits(ps) ==
-   {EditRec("files", i, 0, <<Code(9, 1, 1), Code(9, 1, 2)>>, <<>>, NoLic, NoPara) : i \in FilesIdx(ps)}
-   \cup {EditRec("copy", i, 0, <<>>, MkText(9, 2, <<"P", "I">>), NoLic, NoPara) : i \in FilesIdx(ps)}
-   \cup {EditRec("lic", i, 0, <<>>, <<>>, Lic(ps[i].lic.syn, Join(MkText(9, 4, <<"P", "E", "ID">>))), NoPara) :
+   {EditRec("files", i, 0, "", <<Code(9, 1, 1), Code(9, 1, 2)>>, <<>>, NoLic, NoPara) : i \in FilesIdx(ps)}
+   \cup {EditRec("copy", i, 0, "", <<>>, MkText(9, 2, <<"P", "I">>), NoLic, NoPara) : i \in FilesIdx(ps)}
+   \cup {EditRec("lic", i, 0, "", <<>>, <<>>, Lic(ps[i].lic.syn, Join(MkText(9, 4, <<"P", "E", "ID">>))), NoPara) :
             i \in 1..Len(ps)}
-   \cup {EditRec("add", 0, LastFiles(ps), <<>>, <<>>, NoLic, MkPara(9, FShape(1, <<"P">>, <<"I">>))),
-         EditRec("add", 0, Len(ps), <<>>, <<>>, NoLic, MkPara(9, LShape(<<"P">>)))}
+   \cup {EditRec("add", 0, LastFiles(ps), "", <<>>, <<>>, NoLic, MkPara(9, FShape(1, <<"P">>, <<"I">>))),
+         EditRec("add", 0, Len(ps), "", <<>>, <<>>, NoLic, MkPara(9, LShape(<<"P">>)))}
+   \cup BadEdits(ps)
 
 HdrOf(kind) ==
    LET nm  == <<<<Ln(0, "txt", <<Code(0, 5, 0)>>)>>>>
@@ -365,27 +505,40 @@ HdrOf(kind) ==
 ----------------------------------------------------------------------------
 \* state spaces
 
-Init == /\ lst = <<>> /\ paras = <<>> /\ hist = <<>> /\ big = FALSE /\ ed = <<>>
+Init == /\ lst = <<>> /\ paras = <<>> /\ hist = <<>> /\ big = FALSE /\ ed = <<>> /\ rej = <<>>
         /\ hk \in (IF Mode = "doc" THEN HdrKinds ELSE {"min"})
 
 CodecNext == /\ Mode = "codec" /\ Len(lst) < MaxLen
              /\ \E s \in Alphabet : lst' = Append(lst, s)
-             /\ UNCHANGED <<hk, paras, hist, big, ed>>
+             /\ UNCHANGED <<hk, paras, hist, big, ed, rej>>
 DocNext   == /\ Mode = "doc" /\ Len(hist) < MaxParas /\ ed = <<>>
-             /\ \E b \in (IF big THEN {FALSE} ELSE BOOLEAN) :
+             /\ (rej # <<>> => Len(hist) < RejThen)
+             /\ \E b \in (IF big \/ rej # <<>> THEN {FALSE} ELSE BOOLEAN) :
                   \E sh \in (IF b THEN BigShapes \ SmallShapes ELSE SmallShapes) :
                      LET p == MkPara(Len(hist) + 1, sh)
                      IN /\ hist' = Append(hist, p)
                         /\ paras' = AddPara(paras, p)
                         /\ big' = (big \/ b)
-             /\ UNCHANGED <<lst, hk, ed>>
+             /\ UNCHANGED <<lst, hk, ed, rej>>
+\* a call that the API rejects, made while the (context-only) document is built: on the paragraph added
+\* last, on the header or on the document; on the FIRST paragraph once a second one has been added
+PosOf(ps, p) == CHOOSE j \in 1..Len(ps) : ps[j] = p
+DocReject == /\ Mode = "doc" /\ ed = <<>> /\ ~big /\ rej = <<>> /\ Len(hist) \in RejAt
+             /\ \E e \in (IF Len(hist) = 0 THEN BadCallsDoc
+                           ELSE IF Len(hist) = 1 THEN BadCallsDoc \cup BadCallsOn(hist, 1)
+                           ELSE BadCallsOn(hist, 1)) :
+                  /\ rej' = <<[at |-> Len(hist), e |-> e]>>
+                  \* (e.i counts the add_* calls; the document holds the paragraph at PosOf)
+                  /\ paras' = ApplyCall(DocOf(HdrOf(hk), paras),
+                                        IF e.i = 0 THEN e ELSE [e EXCEPT !.i = PosOf(paras, hist[e.i])]).paras
+             /\ UNCHANGED <<lst, hk, hist, big, ed>>
 \* second phase: one edit of the re-parsed (context-only) document
-DocEdit   == /\ Mode = "doc" /\ ed = <<>> /\ ~big
+DocEdit   == /\ Mode = "doc" /\ ed = <<>> /\ ~big /\ rej = <<>>
              /\ \E e \in Edits(paras) :
-                  /\ paras' = ApplyEdit(paras, e)
+                  /\ paras' = ApplyCall(DocOf(HdrOf(hk), paras), e).paras
                   /\ ed' = <<[e |-> e, pre |-> paras, memo |-> MemoAfter(HdrOf(hk), paras)]>>
-             /\ UNCHANGED <<lst, hk, hist, big>>
-Next == CodecNext \/ DocNext \/ DocEdit
+             /\ UNCHANGED <<lst, hk, hist, big, rej>>
+Next == CodecNext \/ DocNext \/ DocReject \/ DocEdit
 Spec == Init /\ [][Next]_vars
 
 ----------------------------------------------------------------------------
@@ -453,7 +606,9 @@ Memo          == IF ed = <<>> THEN NoMemo ELSE ed[1].memo
 RoundTrip     == Mode = "doc" => RoundTripOf(HdrOf(hk), paras, LoadM(Memo, DumpM(Memo, HdrOf(hk), paras)))
 Stable        == Mode = "doc" => StableOf(HdrOf(hk), paras, LoadM(Memo, DumpM(Memo, HdrOf(hk), paras)))
 HistoryKept   == Mode = "doc" => IF ed = <<>> THEN paras = Build(hist) /\ Len(paras) = Len(hist)
-                                 ELSE ed[1].pre = Build(hist) /\ paras = ApplyEdit(ed[1].pre, ed[1].e)
+                                 ELSE ed[1].pre = Build(hist)
+                                      /\ paras = (IF Rejects(DocOf(HdrOf(hk), ed[1].pre), ed[1].e) THEN ed[1].pre
+                                                  ELSE ApplyCall(DocOf(HdrOf(hk), ed[1].pre), ed[1].e).paras)
 
 EncLic(l)  == [s |-> EncLn(l.syn), t |-> EncStr(l.text)]
 EncExtra(x) == [i \in 1..Len(x) |-> [k |-> x[i].k, v |-> EncStr(x[i].v)]]
@@ -463,13 +618,19 @@ EncHdr(h)  == [n |-> IF h.name = <<>> THEN <<>> ELSE <<EncStr(h.name[1])>>,
                l |-> IF h.lic = <<>> THEN <<>> ELSE <<EncLic(h.lic[1])>>,
                fe |-> h.fe, fi |-> h.fi, x |-> EncExtra(h.extra)]
 EncDL(dl)  == [f |-> dl.k, x |-> EncLn(dl.x)]
-EncEdit(e) == [kind |-> e.kind, i |-> e.i, at |-> e.at, p |-> e.pats, c |-> EncStr(e.copy), l |-> EncLic(e.lic),
-               a |-> EncPara(e.para)]
+EncEdit(e) == [kind |-> e.kind, i |-> e.i, at |-> e.at, f |-> e.f, p |-> e.pats, c |-> EncStr(e.copy), l |-> EncLic(e.lic),
+               a |-> EncPara(e.para),
+               \* what the specification says about the call: refused (and how) or carried out
+               rej |-> Rejects(DocOf(HdrOf(hk), IF ed = <<>> THEN paras ELSE ed[1].pre),
+                               IF e.i = 0 \/ ed # <<>> THEN e ELSE [e EXCEPT !.i = PosOf(paras, hist[e.i])]),
+               exc |-> RejectExc(DocOf(HdrOf(hk), IF ed = <<>> THEN paras ELSE ed[1].pre),
+                                 IF e.i = 0 \/ ed # <<>> THEN e ELSE [e EXCEPT !.i = PosOf(paras, hist[e.i])])]
 DocEmit(h, d) == Emit => PrintT(<<"CASE", ToJson([hk   |-> hk,
                                                   hdr  |-> EncHdr(h),
                                                   ops  |-> [i \in 1..Len(hist) |-> EncPara(hist[i])],
                                                   doc  |-> [i \in 1..Len(paras) |-> EncPara(paras[i])],
                                                   edit |-> IF ed = <<>> THEN <<>> ELSE <<EncEdit(ed[1].e)>>,
+                                                  calls |-> [j \in 1..Len(rej) |-> [at |-> rej[j].at, e |-> EncEdit(rej[j].e)]],
                                                   pre  |-> IF ed = <<>> THEN <<>>
                                                            ELSE [i \in 1..Len(ed[1].pre) |-> EncPara(ed[1].pre[i])],
                                                   dump |-> [i \in 1..Len(d) |-> EncDL(d[i])]])>>)
